@@ -219,8 +219,23 @@ void op_allocfail(const Case& c, TaskCtx& t, Outcome& o) {
   if (target != "keygen" && !honest_signature(k, msg, sig))
     CHECK_FAIL("C01.sign_failed", "honest signing failed");
   bytes vsig = sig;
-  if (target == "verifybad")
-    vsig[(size_t)(c.u("bit", 12345) % (8 * vsig.size())) >> 3] ^= 0x10;
+  if (target == "verifybad") {
+    size_t pos = (size_t)(c.u("bit", 12345) % vsig.size());
+    if (c.has("vfield")) { // the one defect sits in a chosen kind of field, so that every kind of check is the only one that can notice
+      auto lay = model::sig_layout(p, sig);
+      std::vector<const model::Field*> cand;
+      for (auto& f : lay)
+        if (f.len && f.name.rfind(c.s("vfield"), 0) == 0)
+          cand.push_back(&f);
+      if (cand.empty()) {
+        o.skipped = true;
+        return;
+      }
+      const model::Field* f = cand[(size_t)(c.u("bit") % cand.size())];
+      pos = f->off + (size_t)((c.u("bit") >> 16) % f->len);
+    }
+    vsig[pos] ^= 0x10;
+  }
   else if (target == "verifytrunc")
     vsig.resize(vsig.size() - 1 - (size_t)(c.u("bit", 0) % 64));
   size_t mx = picnic_signature_size(param);
@@ -334,7 +349,7 @@ void op_allocfail(const Case& c, TaskCtx& t, Outcome& o) {
     t.stats->hit("op.allocfail");
     t.stats->hit("fault.alloc_fail.fired", cls == "not_reached" ? 0 : 1);
     t.stats->hit("c18.outcome." + cls);
-    t.stats->tuple(std::string(p.name) + "|" + target + "|alloc_fail|" + (k2 >= 0 ? "double" : "single") + "|bucket" + std::to_string(k1 * 8 / ap.nalloc) + "|" + cls);
+    t.stats->tuple(std::string(p.name) + "|" + target + (c.has("vfield") ? ":" + c.s("vfield") : "") + "|alloc_fail|" + (k2 >= 0 ? "double" : "single") + "|bucket" + std::to_string(k1 * 8 / ap.nalloc) + "|" + cls);
   }
   if (cls == "WRONG_SUCCESS")
     CHECK_FAIL("C18.wrong_success", std::string(p.name) + " " + target + ": allocation " + std::to_string(k1) + (k2 >= 0 ? " and " + std::to_string(k2) : "") + " of " + std::to_string(ap.nalloc) +
